@@ -182,3 +182,77 @@ Qed.
 Theorem reachable_vertices_missing_root {V E} `{Vertex V} `{Edge E} (g : graph V E) r :
   has_vertex g r = false -> reachable_vertices g r = Err EGraphVertex.
 Proof. intros Hr. unfold reachable_vertices. rewrite Hr. reflexivity. Qed.
+
+(* ------------------------------------------------------------------ remove_unreachable_vertices *)
+Local Open Scope N_scope.
+Section RemoveUnreachable.
+  Context {V E : Type} `{Vertex V} `{Edge E}.
+
+  Definition rm_step (acc : res (graph V E)) (v : N) : res (graph V E) :=
+    g' <- acc ;; match remove_vertex g' v with Ok g'' => Ok g'' | _ => Panic end.
+
+  Lemma fold_remove_vertices (us : list N) : forall g0 : graph V E,
+    graph_inv g0 -> NoDup us -> (forall u, In u us -> has_vertex g0 u = true) ->
+    exists g', fold_left rm_step us (Ok g0) = Ok g' /\ graph_inv g' /\
+      (forall v, has_vertex g' v = has_vertex g0 v && negb (existsb (N.eqb v) us)) /\
+      (forall h t, has_edge g' h t =
+                   has_edge g0 h t && negb (existsb (N.eqb h) us) && negb (existsb (N.eqb t) us)).
+  Proof.
+    induction us as [|u us IH]; intros g0 Hgi Hnd Hall; cbn [fold_left].
+    - exists g0. split; [reflexivity|]. split; [exact Hgi|]. split; intros; cbn [existsb negb]; rewrite ?andb_true_r; reflexivity.
+    - inversion Hnd as [|? ? Hni Hnd']; subst.
+      destruct (remove_vertex_inv g0 u Hgi (Hall u (or_introl eq_refl))) as [g1 [Hr [Hgi1 [Hv1 [_ He1]]]]].
+      unfold rm_step at 2. cbn [bind]. rewrite Hr.
+      assert (Hhv : forall v, has_vertex g1 v = negb (v =? u) && has_vertex g0 v).
+      { intros v. unfold has_vertex. rewrite Hv1. apply nm_mem_remove. }
+      destruct (IH g1 Hgi1 Hnd') as [g' [Hf [Hgi' [Hv' He']]]].
+      { intros x Hx. rewrite Hhv, (Hall x (or_intror Hx)), andb_true_r. apply negb_true_iff, N.eqb_neq.
+        intros ->. contradiction. }
+      exists g'. split; [exact Hf|]. split; [exact Hgi'|]. split.
+      + intros v. rewrite Hv', Hhv. cbn [existsb]. rewrite negb_orb.
+        destruct (v =? u), (has_vertex g0 v), (existsb (N.eqb v) us); reflexivity.
+      + intros h t. rewrite He'. unfold has_edge at 1. rewrite He1. fold (has_edge g0 h t). cbn [existsb].
+        rewrite !negb_orb.
+        destruct (h =? u), (t =? u), (has_edge g0 h t), (existsb (N.eqb h) us), (existsb (N.eqb t) us); reflexivity.
+  Qed.
+
+  (* [U] the result is a consistent graph whose vertices are exactly the reachable ones and whose edges
+     are exactly the edges between reachable vertices *)
+  Theorem remove_unreachable_correct (g : graph V E) r :
+    graph_inv g -> has_vertex g r = true ->
+    exists g', remove_unreachable_vertices g r = Ok g' /\ graph_inv g' /\
+      (forall v, has_vertex g' v = true <-> (has_vertex g v = true /\ reach (edge_keys g) r v)) /\
+      (forall h t, has_edge g' h t = true <->
+                   (has_edge g h t = true /\ reach (edge_keys g) r h /\ reach (edge_keys g) r t)).
+  Proof.
+    intros Hgi Hr. unfold remove_unreachable_vertices.
+    destruct (unreachable_vertices_correct g r Hgi Hr) as [us [Hus Hin]]. rewrite Hus. cbn [bind].
+    assert (Hnd : NoDup us).
+    { unfold unreachable_vertices in Hus.
+      destruct (reachable_vertices g r) as [s| |]; try discriminate. cbn [bind] in Hus. injection Hus as <-.
+      apply NoDup_filter. apply nsorted_nodup. apply Hgi. }
+    destruct (fold_remove_vertices us g Hgi Hnd) as [g' [Hf [Hgi' [Hv He]]]].
+    { intros u Hu. apply Hin in Hu. tauto. }
+    exists g'. split; [exact Hf|]. split; [exact Hgi'|].
+    assert (Hmem : forall v, existsb (N.eqb v) us = true <-> In v us).
+    { intros v. rewrite existsb_exists. split.
+      - intros [x [Hx Hq]]. apply N.eqb_eq in Hq. subst. exact Hx.
+      - intros Hx. exists v. split; auto. apply N.eqb_refl. }
+    assert (Hnot : forall v, has_vertex g v = true -> (negb (existsb (N.eqb v) us) = true <-> reach (edge_keys g) r v)).
+    { intros v Hvv. rewrite negb_true_iff. split.
+      - intros Hn. destruct (reachable_vertices_correct g Hgi r Hr) as [s [_ [_ Hs]]].
+        destruct (in_dec N.eq_dec v s) as [Hvs|Hvs]; [apply Hs; exact Hvs|].
+        exfalso. assert (Hvu : In v us) by (apply Hin; split; auto; intros Hre; apply Hvs, Hs, Hre).
+        apply Hmem in Hvu. congruence.
+      - intros Hre. destruct (existsb (N.eqb v) us) eqn:Hx; auto. apply Hmem, Hin in Hx. tauto. }
+    split.
+    - intros v. rewrite Hv, andb_true_iff. split.
+      + intros [Hvv Hn]. split; auto. apply Hnot; auto.
+      + intros [Hvv Hre]. split; auto. apply Hnot; auto.
+    - intros h t. rewrite He, !andb_true_iff. split.
+      + intros [[Hhe Hh] Ht]. destruct (has_edge_vertices g h t Hgi Hhe) as [Hvh Hvt].
+        split; auto. split; apply Hnot; auto.
+      + intros [Hhe [Hh Ht]]. destruct (has_edge_vertices g h t Hgi Hhe) as [Hvh Hvt].
+        split; [split; auto|]; apply Hnot; auto.
+  Qed.
+End RemoveUnreachable.
